@@ -30,6 +30,9 @@ def meshes(tier):
                                                     [[[0, 0, 0], [7, 3, 7]], [[0, 4, 0], [3, 7, 7]]],
                                                     [[[2, 2, 2], [9, 5, 9]]]]},
     ]
+    # boxes listed in DEscending order of their corners (AMReX guarantees no order)
+    ms.append({"ndims": 3, "domain": [8, 4, 4], "levels": [[[[4, 0, 0], [7, 3, 3]], [[0, 0, 0], [3, 3, 3]]],
+                                                          [[[10, 0, 0], [15, 3, 3]], [[4, 2, 2], [9, 7, 7]], [[0, 0, 0], [3, 3, 3]]]]})
     if tier == "thorough":
         from . import c07
         for m in c07.base_meshes("thorough"):
@@ -52,6 +55,13 @@ def cases(tier, seed):
             d.update({"fields": ["temp", "density", "Z"], "payload": "affidx", "seed": seed,
                       "layout": [scope.layouts(len(b), 'idrev')[-1] for b in mesh["levels"]]})
             out.append({"desc": d, "w": len(mesh["levels"]) ** 2})
+        # a domain that straddles the coordinate origin with cell centres AT zero (exactly in y and z, up to rounding in x),
+        # non-finite values elsewhere in the boxes
+        d = dict(mesh)
+        d.update({"origin": [-0.15, -0.75, -0.0625], "dx0": [0.1, 0.5, 0.125]})
+        d.update({"fields": ["temp", "density", "Z"], "payload": ["affidx", "affidx+hostile", "affidx*1e-15"], "seed": seed,
+                  "layout": [scope.layouts(len(b), 'idrev')[-1] for b in mesh["levels"]]})
+        out.append({"desc": d, "w": len(mesh["levels"]) ** 2})
         # fields of very different magnitudes, and non-finite values in OTHER cells of the boxes (corner cells, never the
         # interior cell that is queried): the stored value of the queried cell is what comes back, for every field
         d = dict(mesh)
@@ -94,6 +104,22 @@ def run_case(case, workdir):
                         continue
                     g = [lo[d] + loc[d] for d in range(3)]
                     pt = [ref.geo_lo[d] + (g[d] + 0.5) * ref.dx[lv][d] for d in range(3)]
+                    # other spellings of the same centre: 1e-11 cell beside the computed value, a coordinate of rounding size given as literal 0.0
+                    spell = [pt]
+                    if sum(loc) % 2 == 0:
+                        spell.append([x_ + 1e-11 * ref.dx[lv][d_] for d_, x_ in enumerate(pt)])          # (1e-11 cell beside the computed value)
+                        if any(0 < abs(x_) < 1e-12 for x_ in pt) and min(ref.dx[lv]) > 1e-3:
+                            spell.append([0.0 if abs(x_) < 1e-12 else x_ for x_ in pt])
+                    for tag, sel, fidx in sels[:2]:
+                        for pt_ in spell[1:]:
+                            st_, val_ = call(lambda: pck[sel](*pt_))
+                            rec.exe([dh, lv, g, tag, "spelling", pt_], nontrivial=True)
+                            exp_ = np.array([ref.data[lv][b][loc + (f,)] for f in fidx])
+                            tol_ = np.array([1e-9 * float(np.max(np.abs(ref.data[lv][b][..., f][np.isfinite(ref.data[lv][b][..., f])]))) for f in fidx]) + 1e-300
+                            got_ = np.atleast_1d(np.asarray(val_, dtype=float)).ravel() if st_ != "exc" else None
+                            if st_ == "exc" or got_.shape != exp_.shape or not np.all(np.abs(got_ - exp_) <= tol_):
+                                rec.fail("values", {"level": lv, "box": b, "cell": g, "point": pt_, "selection": tag, "spelling_of": pt},
+                                         "returned %r, stored %r" % (exc_text(val_) if st_ == "exc" else got_.tolist(), exp_.tolist()))
                     for tag, sel, fidx in sels:
                         st, val = call(lambda: pck[sel](*pt))
                         sub = {"level": lv, "box": b, "cell": g, "point": pt, "selection": tag}
